@@ -127,6 +127,9 @@ def _samearg_full_drop(call: ast.Call, name: str) -> bool:
     return False
 
 
+from .c20 import with_swallows
+
+
 def check(ctx, rep):
     prog = ctx.prog
     eff = Effects(prog, ctx.resolver)
@@ -384,9 +387,8 @@ def check(ctx, rep):
                     if ways:
                         problems.append(f"`except {norm(h.type) if h.type else ''}` at line {h.lineno} can complete normally")
             for wnode in enclosing_withs(f.node, call):
-                sup = is_suppress_with(wnode)
-                if sup:
-                    problems.append(f"inside contextlib.suppress({', '.join(sup)})")
+                for why in with_swallows(ctx, f, wnode):
+                    problems.append(f"inside a with block (line {wnode.lineno}) that can swallow it: {why}")
             rep.add("R19c", f"{f.qualname}: {norm(call)[:70]}", not problems, ctx.where(f, call),
                     "failure would be swallowed: " + "; ".join(problems) if problems else "errors propagate",
                     key=f"R19c|{f.qualname}|{norm(call.func)}")
